@@ -189,6 +189,20 @@ PROPS = {
         real_vs_stub=L_REAL,
         assumptions=SIM_ASSUME,
     ),
+    "C06": dict(
+        pkg="internal/repository/pack", test="TestVerifC06", level="fault_enumeration", quick_s=30, thorough_s=600,
+        text="packs written by the real Packer for generated sequences of 1-40 data/tree blobs, compressed or not, with counts around the 15-entry "
+             "eager-read boundary and in rare runs exactly at the header-entry limit and one below; pack.List reads them through backend.ReaderAt "
+             "over the simulated store with read errors, partial and corrupted reads, and after at-rest damage: truncation at a generated length, "
+             "extension with zeros or random bytes, a bit flipped in the length field or in the encrypted header, an arbitrary length value, a "
+             "removed first byte; an intact pack lists exactly what was written (types, offsets, lengths, uncompressed lengths, header size); a "
+             "damaged pack or corrupted read yields an error, never a panic and never a listing that differs from the truth",
+        note="only the storage-fault half is the simulator's; boundary sequences are generator input; blob ciphertexts are dummies (List does not decrypt blobs)",
+        design_ref="3 / C06",
+        rule="one run = generated blob sequence x damage kind/position x read faults; distinct = distinct (case, event-log hash)",
+        real_vs_stub="real: pack.Packer, pack.List, readHeader/readRecords, backend.ReaderAt; simulated: object store with faulty reads",
+        assumptions=SIM_ASSUME,
+    ),
     "C08": dict(
         pkg="internal/repository", test="TestVerifC08", level="exploration", quick_s=45, thorough_s=600,
         text="histories of 3-9 steps that add index files (1-3 packs x 1-4 blobs, blobs recurring in other packs, exact duplicate entries in several "
